@@ -50,7 +50,7 @@ P("C14", "contract monitor on the read-out getters with an independent slicing o
   "For every sampler the four read-outs and get_interval/get_marginal are compared with the oracle's own burn/thin/top-fraction selection computed from the full chain, over seeded chain lengths, burn, thin, fractions and counts.",
   "rows are matched to the full chain exactly", "DESIGN.md §5 C14")
 P("C15", "state invariant after advance/take_step programs; pool-vs-serial twin comparison; virtual-clock monitor of run_for",
-  "Random programs of advance(m)/take_step calls must add exactly m samples with consistent counters; ChainPool results must equal serially advanced deep copies bit-for-bit; run_for is driven on a virtual clock with step costs from microseconds to minutes and must keep stepping until the budget is used and then stop.",
+  "Random programs of advance(m)/take_step calls must add exactly m samples with consistent counters; ChainPool results must equal serially advanced deep copies bit-for-bit; run_for is driven on a virtual clock with step costs from microseconds to minutes and must keep stepping until the budget is used and then stop (single chains, and ParallelTempering.run_for with swap intervals 1-400); a sampler written by the user on the MarkovChain base class is advanced the same way.",
   "time is virtual: the `time` name in inference.mcmc.base is replaced", "DESIGN.md §5 C15")
 P("C16", "contract monitor: Richardson derivatives of the real predictions + reference gradient covariance",
   "gradient() and spatial_derivatives() of seeded regressors (d=1-4, all mean functions, single and batched queries) are compared with numerical derivatives of the regressor's own predictions and with the closed-form gradient covariance.",
@@ -62,8 +62,8 @@ P("C18", "contract monitor: quadrature of the EI definition, branch-reach counte
   "Acquisition values are compared with direct quadrature of their definitions for z from -40 to +5 (both EI branches must be reached, proven by counters of monitored evaluations with z < -3 and z >= -3, plus points bisected onto both sides of the switch), opt_func_gradient with numerical derivatives, proposals with the bounds, and add_evaluation with the data/incumbent/caller-array invariants.",
   "trusts scipy.integrate.quad on a smooth, factored integrand", "DESIGN.md §5 C18")
 P("C19", "contract monitor: high-accuracy quadrature of the estimator's own pdf; metamorphic shift/scale re-runs",
-  "For GaussianKDE and UnimodalPdf fitted to seeded samples: unit normalisation, cdf = integral of pdf, interval mass and end-density equality, mode optimality, moments vs centred quadrature, and covariance under shift/scale.",
-  "UnimodalPdf re-fits are compared at optimiser accuracy; a KDE mode that is only the best point of its sample-derived search bracket is a recorded known finding", "DESIGN.md §5 C19")
+  "For GaussianKDE and UnimodalPdf fitted to seeded samples: unit normalisation, cdf = integral of pdf, interval mass and end-density equality (fractions 0.05-0.99, UnimodalPdf also to 0.9995), mode optimality, moments vs centred quadrature, and covariance under shift/scale.",
+  "UnimodalPdf re-fits are compared at optimiser accuracy; a KDE mode that is only the best point of its sample-derived search bracket, and an interval search that stalls with an end in an empty region (f >= 0.99), are recorded known findings", "DESIGN.md §5 C19")
 P("C20", "contract monitor: exact piecewise-quadratic CDF (PIT/KS + chi-square), true-conditional comparison on the grid",
   "piecewise_linear_sample draws are tested against the exact CDF of the tabulated piecewise-linear density on uniform and non-uniform grids; get_conditionals output is checked for normalisation, proportionality to the true conditional, coverage of the high-density region and containment; conditional_sample for containment.",
   "module RNG is seeded; KS/chi-square at family-wise 1e-6 with two-stage confirmation", "DESIGN.md §5 C20")
